@@ -13,7 +13,8 @@ def _ghe(case):
     n = case["N"]
     coords = [(5.0 * (j % 3), 5.0 * (j // 3)) for j in range(n)]
     loads = [x * (-1.0 if case.get("mirror") else 1.0) for x in loadgen.atlanta_like(case["scale"])]
-    gf = ghe_factory.table_gfunction(coords, 5.0 if n > 1 else 0.075, HEIGHTS, 0.075, curve=case.get("curve", "base"))
+    # "heights": the heights the long-time table was computed for (a pre-computed family may be wider than the allowed height window)
+    gf = ghe_factory.table_gfunction(coords, 5.0 if n > 1 else 0.075, case.get("heights", HEIGHTS), 0.075, curve=case.get("curve", "base"))
     return ghe_factory.make_ghe(coords, pipe=case.get("pipe", "single"), H=100.0, loads=loads, months=case.get("months", 12), gfunc=gf)
 
 
